@@ -1,6 +1,7 @@
 package e1
 
 import (
+	"os"
 	"math/big"
 	"fmt"
 	"strings"
@@ -249,7 +250,9 @@ func genC20(r *core.Rand, env *core.Env, run int) *Scenario {
 		sc.Knobs.ConfigText = genConfigText(r, sc.Knobs.ShardNum, ndb)
 	}
 	nc := 1 + r.Intn(4)
-	withDeadlines := r.Bool(0.4)
+	// (not in the sweep phase: the manager lives inside server.Start there and its
+	// pending expiry timers could not be cancelled at the end of a run)
+	withDeadlines := r.Bool(0.4) && os.Getenv("VERIF_RACE") != "1"
 	keys := []string{"k", "j"}
 	uniq := 0
 	total := 0
